@@ -315,6 +315,18 @@ func Harness_C04_step() {
 			v.p.wait()
 			vassert(v.p.err != nil, "C05: a request pending at stop ends with an error")
 		}
+		// they ended without a reply: OnCancel runs exactly once for each
+		vassert(len(env.cancels) == len(env.pend), "C05: OnCancel runs exactly once for each request that a stop ended without a reply")
+		for _, v := range env.pend {
+			n := 0
+			for _, id := range env.cancels {
+				if id == v.id {
+					n++
+				}
+			}
+			vassert(n == 1, "C05: OnCancel runs exactly once for each request that a stop ended without a reply")
+		}
+		vassert(!env.hookLock, "C05: OnCancel runs outside the client's lock")
 		reach("stopped")
 	case 4: // operations on a stopped client
 		if c.err == nil {
